@@ -311,8 +311,9 @@ theorem hstep_inv {s : HStore p} (h : HInv s) (op : HOp p) (hok : hokOp s op = t
     intro x hx
     simp only [hokOp, List.all_eq_true] at hok
     simpa using hok x hx
+  | backend x b => exact hbackend_inv h x b
   | clear => exact hclear_inv s
-  | update => exact (hupdate_good h).2.2
+  | update => exact (hupdate_good h true (Or.inl rfl)).2.2
 
 theorem hrun_inv (ops : List (HOp p)) : ∀ {s : HStore p}, HInv s → hallOk s ops = true →
     HInv (ops.foldl hstep s) := by
@@ -329,27 +330,42 @@ theorem hallOk_append (a b : List (HOp p)) : ∀ (s : HStore p),
   | nil => intro s; simp [hallOk]
   | cons op a ih => intro s; simp [hallOk, ih, Bool.and_assoc]
 
-/-- **C05, frontend maps guard.**  `WriteFrontendMaps` is skipped when `frontend.Maps != nil` and
-`hosts.Changed()` is false; for every history of AcquireHost / RemoveAll / config.Clear / update
-(RemoveAll only on hosts not re-added in the batch) the host entries of the map files equal the
-current hosts after every update.  (Host content is abstract: map lines that are computed from
-OTHER objects than the host itself are outside this statement, see the registry notes.) -/
+/-- **C05, frontend maps guard.**  `WriteFrontendMaps` is skipped when
+`frontend.Maps != nil && !hosts.Changed() && !rootRedirectBackendChanged()`; for every history of
+AcquireHost / RemoveAll / backend change / config.Clear / update (RemoveAll only on hosts not
+re-added in the batch), after every update the map files hold, for every host, the entry of the
+current host AND the root-ssl entry computed from its current backend. -/
 theorem maps_eq_hosts (hist : List (HOp p)) (hok : hallOk {} (hist ++ [.update]) = true) :
     ∀ x, ((hist ++ [HOp.update]).foldl hstep ({} : HStore p)).maps x =
-         ((hist ++ [HOp.update]).foldl hstep ({} : HStore p)).items x := by
+         ((hist ++ [HOp.update]).foldl hstep ({} : HStore p)).want x := by
   rw [hallOk_append] at hok
   simp only [Bool.and_eq_true] at hok
   have h := hrun_inv hist hinv_init hok.1
   rw [List.foldl_append]
-  exact (hupdate_good h).1
+  exact (hupdate_good h true (Or.inl rfl)).1
 
-/-- non-vacuity: host 0 re-added unchanged (no rewrite needed), then a full resync dropping host 1 -/
+/-- non-vacuity: host 0 (root redirect) re-added unchanged while its backend flips ssl-redirect
+(maps rewritten because of the backend), then a full resync dropping host 1 -/
 example :
-    let hist : List (HOp 2) := [.acquire 0 5, .acquire 1 6, .update, .removeAll [0], .acquire 0 5, .update,
-      .clear, .acquire 0 7]
+    let hist : List (HOp 2) := [.acquire 0 5, .backend 0 1, .acquire 1 6, .update,
+      .removeAll [0], .acquire 0 5, .backend 0 0]
     hallOk {} (hist ++ [.update]) = true ∧
-    ((hist ++ [HOp.update]).foldl hstep ({} : HStore 2)).maps 1 = none ∧
-    ((hist ++ [HOp.update]).foldl hstep ({} : HStore 2)).maps 0 = some 7 := by decide
+    (hist.foldl hstep ({} : HStore 2)).maps 0 = some (5, true) ∧
+    ((hist ++ [HOp.update]).foldl hstep ({} : HStore 2)).maps 0 = some (5, false) ∧
+    ((hist ++ [HOp.update, .clear, .acquire 0 7, .update]).foldl hstep ({} : HStore 2)).maps 1 = none := by
+  decide
+
+/-- historical witness (repaired by the `fix:` commit on `WriteFrontendMaps`, finding
+`stale-frontend-map-entry`): with the old guard `Maps != nil && !hosts.Changed()` an ingress update
+that only flips `ssl-redirect` (host re-parsed identical, `Hosts.Shrink` drops the pair, only the
+backend is dirty) left the host in `_front_redir_root_ssl.map` -/
+theorem oldGuard_stale_root_ssl :
+    let ops : List (HOp 2) := [.acquire 0 5, .backend 0 1, .update, .removeAll [0], .acquire 0 5, .backend 0 0,
+      .update]
+    hallOk {} ops = true ∧
+    (ops.foldl hstepOld ({} : HStore 2)).maps 0 = some (5, true) ∧
+    (ops.foldl hstepOld ({} : HStore 2)).want 0 = some (5, false) ∧
+    (ops.foldl hstep ({} : HStore 2)).maps 0 = some (5, false) := by decide
 
 /-! ### regenerated facts: the Go source still has the shape the model assumes -/
 
@@ -357,7 +373,7 @@ example :
 flags through `BackendChanged`; `HAProxyUpdate` shrinks before writing and defers `Commit`;
 `writeConfig` is called when `!updated || cmdCnt > 0 || Backends().Changed()` and renders the
 main file and then `ChangedShards()` only, when `BackendShards > 0`;
-`WriteFrontendMaps` is guarded by `Maps != nil && !hosts.Changed()` -/
+`WriteFrontendMaps` is guarded by `Maps != nil && !hosts.Changed() && !rootRedirectBackendChanged()` -/
 theorem facts_c05 :
     Facts.c05ClearRange = ["b.shards"] ∧
     Facts.c05ClearCond = ["len(b.shards[i])>0"] ∧
@@ -372,6 +388,7 @@ theorem facts_c05 :
     Facts.c05WriteConfigCalls = ["i.haproxyTmpl.Write", ".ChangedShards", "i.haproxyTmpl.WriteOutput",
       ".BuildSortedShard"] ∧
     Facts.c05WriteConfigCmps = ["i.options.BackendShards > 0"] ∧
-    Facts.c05FrontendMapsGuard = ["c.frontend.Maps!=nil&&!c.hosts.Changed()"] := by decide
+    Facts.c05FrontendMapsGuard = ["c.frontend.Maps!=nil&&!c.hosts.Changed()&&!c.rootRedirectBackendChanged()"] := by
+  decide
 
 end HapVerif.C05
